@@ -195,6 +195,27 @@ def point_rows(lm):
     return rows
 
 
+def invalid(lm):
+    """structural damage that makes the content undefined: corner index without a point (e.g. read from an
+    unassigned slot of the inverse permutation), field length not matching its entity count"""
+    n = len(lm["points"])
+    for t, rows in lm["cells"]:
+        for r in rows:
+            for i in r:
+                if not (0 <= i < n):
+                    return f"cell of type {t} refers to point index {i}, but there are {n} points"
+    ncells = {t: len(rows) for t, rows in lm["cells"]}
+    for f in lm["pf"]:
+        if len(f["v"]) != n * _rowsize(f["tail"]):
+            return f"point field {f['name']}: {len(f['v'])} values for {n} points"
+    for f in lm["cf"]:
+        if len(f["v"]) != ncells.get(f["ctype"], -1) * _rowsize(f["tail"]):
+            return f"cell field {f['name']} on {f['ctype']}: {len(f['v'])} values for {ncells.get(f['ctype'])} cells"
+    if any(len(p) != lm["dim"] for p in lm["points"]):
+        return "point rows of unequal length"
+    return None
+
+
 def referenced(lm):
     s = set()
     for _, rows in lm["cells"]:
@@ -515,6 +536,13 @@ def check_case(ctx, case, tags=(), record=True):
             break
         # ---------------- search: implementation vs the property
         k = step[0]
+        damage = invalid(after)
+        if damage:
+            ctx.violation(one, damage, "a well-formed data set", cls=None, what=f"{k}: result is not a well-formed data set")
+            problems += 1
+            tags.append("damaged-result")
+            raised = (step, "damaged")
+            break
         if k in REORDERINGS or k == "layer":
             pb, pa = oracle_content(before), oracle_content(after)
             if pb != pa:
